@@ -1001,6 +1001,8 @@ class Translator:
                         lm = re.search(r'^\(\(uint32_t\)(\d+)ULL\)$', cargs[-1][1])
                         ln = lm.group(1) if lm else cargs[-1][1]
                         tag = ('yk' if rn == 'yk_assert_at' else 'reach') + ':' + (ln if lm else 'merged')
+                        if lm and rn == 'yk_reach_at' and int(ln) >= 100000:
+                            tag = 'reach:%d@%d' % (int(ln) % 100000, int(ln) // 100000)
                         st.append('yk_note(%s); __CPROVER_assert(%s, "%s");' % (ln, cond, tag))
                         continue
                     if rn in ('_Znwm', '_ZnwmSt11align_val_t') and destraw in newty and newty[destraw][1] is not None:
